@@ -4,7 +4,12 @@
 From Aquatic Require Export WsRouting WsCheck Consts.
 Local Open Scope N_scope.
 
-Inductive wsys_step_obs := WSysStep (who : N * N) (a : caction) (observed : list dmsg).
+(* [WSysBurst]: several messages written to the connection back to back (pipelined) before anything
+   is read; the model processes them in order, the replies are compared per connection as MULTISETS
+   (parts from different swarm workers may overtake each other) *)
+Inductive wsys_step_obs :=
+| WSysStep (who : N * N) (a : caction) (observed : list dmsg)
+| WSysBurst (who : N * N) (acts : list caction) (observed : list dmsg).
 
 Definition wsys_case : Type := nat * nat * nat * nat * acl_mode * list N * list wsys_step_obs.
 
@@ -44,6 +49,20 @@ Definition obs_matches (keys : list (N * N)) (model observed : list dmsg) : bool
 Definition drop_err2 (l : list dmsg) : list dmsg :=
   filter (fun m => match m with DErr _ _ 2 => false | _ => true end) l.
 
+Definition obs_matches_perm (keys : list (N * N)) (model observed : list dmsg) : bool :=
+  forallb (fun key => perm_eqb dmsg_eqb (for_conn key model) (for_conn key observed)) keys
+  && forallb (fun m => existsb (pair_eqb (dest m)) keys) observed.
+
+Fixpoint run_burst (mode : acl_mode) (acl : list N) (cfg : wcfg) (cut ae : bool) (k : nat) (y : wsys) (who : N * N) (acts : list caction)
+  : outcome (wsys * list dmsg) :=
+  match acts with
+  | [] => Ok (y, [])
+  | a :: t =>
+      let! (y1, m1) := wsys_gate mode acl cfg cut ae k y who a in
+      let! (y2, m2) := run_burst mode acl cfg cut ae k y1 who t in
+      Ok (y2, m1 ++ m2)
+  end.
+
 Definition ws_sys_code_gen (lenient2 cut answer_empty : bool) (c : wsys_case) : N :=
   let '(sw, k, max_scrape, max_offers, mode, acl, steps) := c in
   let cfg := mkWcfg max_offers max_scrape 1000 1000 in
@@ -58,9 +77,17 @@ Definition ws_sys_code_gen (lenient2 cut answer_empty : bool) (c : wsys_case) : 
             if obs_matches keys (if lenient2 then drop_err2 model else model) (if lenient2 then drop_err2 observed else observed)
             then go (N.succ i) y' t else N.succ i
         end
+    | WSysBurst who acts observed :: t =>
+        match run_burst mode acl cfg cut answer_empty k y who acts with
+        | Panic => N.succ i
+        | Ok (y', model) =>
+            let keys := who :: map sc_key (y_conns y) ++ map sc_key (y_conns y') in
+            if obs_matches_perm keys (if lenient2 then drop_err2 model else model) (if lenient2 then drop_err2 observed else observed)
+            then go (N.succ i) y' t else N.succ i
+        end
     end in
   let bad := go 0 (wsys_init k) steps in
-  let relayed := existsb (fun s => match s with WSysStep who _ obs => existsb (fun m => negb (pair_eqb (dest m) who)) obs end) steps in
+  let relayed := existsb (fun s => match s with WSysStep who _ obs | WSysBurst who _ obs => existsb (fun m => negb (pair_eqb (dest m) who)) obs end) steps in
   let closed := existsb (fun s => match s with WSysStep _ CClose _ => true | _ => false end) steps in
   bad * 4 + (if relayed && closed then 3 else 1).
 
